@@ -186,6 +186,10 @@ func (r *Router) Logger() watermill.LoggerAdapter {
 func (r *Router) AddMiddleware(m ...HandlerMiddleware) {
 	r.logger.Debug("Adding middleware", watermill.LogFields{"count": fmt.Sprintf("%d", len(m))})
 
+	// the same lock under which a starting handler copies r.middlewares (RunHandlers)
+	r.middlewaresLock.Lock()
+	defer r.middlewaresLock.Unlock()
+
 	r.addRouterLevelMiddleware(m...)
 }
 
